@@ -213,18 +213,20 @@ Level2 ==
     \cup {c \in {C(t, ks) : t \in SetTags, ks \in SetKids(Kids)} : SortedOk(c.tag, c.kids)}
     \cup {C(t, ks) : t \in MapTags, ks \in MapKids(Kids, Kids)}
 
-\* level-2 values used as children at level 3: a collection holding the quote-carrying subclass string,
-\* (and the empty collection when Rich)
-Core2 == {C(t, <<Kid2>>) : t \in ListTags \cup (SetTags \ {"sortedset"})}
-         \cup {C(t, <<Kid1, Kid2>>) : t \in MapTags}
+\* level-2 values used as children at level 3: collections holding a string with a quote, once as a plain
+\* str and once as the user subclass (and the empty collections when Rich)
+Core2 == {C(t, <<k>>) : t \in ListTags \cup (SetTags \ {"sortedset"}), k \in {Kid1, Kid2}}
+         \cup {C(t, <<Kid1, Kid2>>) : t \in MapTags} \cup {C(t, <<Kid3, Kid1>>) : t \in MapTags}
          \cup IF Rich THEN {C(t, <<>>) : t \in ListTags \cup SetTags \cup MapTags} ELSE {}
+\* scalars that accompany a level-2 child
+Pal == IF Rich THEN Kids ELSE {Kid3, Kid5}
 
 HasCore(ks) == \E i \in 1..Len(ks) : ks[i] \in Core2
 Level3 ==
          {C(t, ks) : t \in ListTags \cup {"valueseq"},
-                     ks \in {x \in Seqs(Kids \cup Core2, 1, 2) : HasCore(x) /\ (Len(x) = 2 => (x[1] \in Kids \/ x[2] \in Kids))}}
-    \cup {C(t, ks) : t \in SetTags \ {"sortedset"}, ks \in {x \in SetKids(Kids \cup Core2) : HasCore(x)}}
-    \cup {C(t, ks) : t \in MapTags, ks \in {x \in MapKids(Kids \cup Core2, Kids \cup Core2) : Len(x) = 2 /\ HasCore(x)}}
+                     ks \in {x \in Seqs(Pal \cup Core2, 1, 2) : HasCore(x) /\ (Len(x) = 2 => (x[1] \in Pal \/ x[2] \in Pal))}}
+    \cup {C(t, ks) : t \in SetTags \ {"sortedset"}, ks \in {x \in SetKids(Pal \cup Core2) : HasCore(x)}}
+    \cup {C(t, ks) : t \in MapTags, ks \in {x \in MapKids(Pal \cup Core2, Pal \cup Core2) : Len(x) = 2 /\ HasCore(x)}}
 
 \* three brackets deep
 Deep ==  {C(t, <<C(t2, <<c>>)>>) : t \in {"list", "MyList"}, t2 \in {"tuple", "list"}, c \in Core2}
